@@ -19,3 +19,12 @@ G('tz.__tai_offs', 'tzraw', '__tai_offs', ['C14'], ins=[('long long', 'in_t')], 
 G('tz.__gps_offs', 'tzraw', '__gps_offs', ['C14'], ins=[('long long', 'in_t')], call='__gps_offs(in_t)', ret='stamp_t', replace=['__tai_offs'],
   unwind=40, timeout=600, sweep={'in_t': '(long long)(RND % 8000000000ULL) - 1000000000LL'})
 G('tz.L_leaptab', 'tzraw', 'L_leaptab', ['C14'], body='\tL_leaptab();', direct=True, must=['L_leaptab'], native=False, reach=False, unwind=40)
+
+# C19: the loader, bounded: all file images of <= ZIF_IMG_MAX bytes
+TU('tzraw-loader', 'lib/tzraw.c', LIB_CFLAGS + ['-Dopen(f,...)=verif_open(f)', '-Dfstat(fd,st)=verif_fstat(fd,st)', '-Dmmap(a,len,...)=verif_mmap(len)',
+                                                 '-Dmunmap(p,len)=verif_munmap(p,len)', '-Dclose(fd)=verif_close(fd)'],
+   pre=['contracts/tzraw.loader.pre.h'], post=['contracts/tzraw.loader.h'])
+G('tzl.zif_open', 'tzraw-loader', 'zif_open', ['C19'], body='\th_zif_open_body();', direct=True, must=['inside'], native=False, reach=False,
+  unwind=6, timeout=900,
+  bounded=dict(bound='all byte strings of length <= 56 as file content whose six header count fields are < 4; loops unwound 6 times with unwinding assertions',
+               why='the loader walks a caller-sized image; file images beyond the bound are not explored'))
